@@ -27,7 +27,7 @@ import tatsu.exceptions
 from bounded.common import bitem, chunked, pmap
 
 PROP = 'C08'
-WATCHDOG_S = 3
+WATCHDOG_S = 3  # seconds of CPU time
 
 
 class _Hang(Exception):
@@ -40,13 +40,13 @@ def _alarm(_sig, _frm):
 
 def guarded_parse(model, text, **kw):
     """('ok', value) | ('fail', exc) | ('hang', None) | ('error', exc)"""
-    old = signal.signal(signal.SIGALRM, _alarm)
-    signal.alarm(WATCHDOG_S)
+    old = signal.signal(signal.SIGVTALRM, _alarm)
+    signal.setitimer(signal.ITIMER_VIRTUAL, WATCHDOG_S)  # CPU time of this process: a busy machine cannot make a parse look hung
     try:
         try:
             return 'ok', model.parse(text, **kw)
         finally:
-            signal.alarm(0)
+            signal.setitimer(signal.ITIMER_VIRTUAL, 0)
     except _Hang:
         return 'hang', None
     except tatsu.exceptions.FailedParse as e:
@@ -56,7 +56,7 @@ def guarded_parse(model, text, **kw):
     except BaseException as e:  # noqa: BLE001
         return 'error', e
     finally:
-        signal.signal(signal.SIGALRM, old)
+        signal.signal(signal.SIGVTALRM, old)
 
 
 ELEMS = ("'a'", "['a']", "{'a'}", '()', "('a' | ())", '/a*/', "'a' ['a']")
